@@ -322,6 +322,12 @@ function allCases(thorough) {
     out.push({ group: 'script', name: `external|${JSON.stringify(b)}`, make: () => ({ files: [['m', '<wxs module="m" src="s"/><a b="{{m.f}}"/>']], scripts: [['s', b]] }) })
     out.push({ group: 'script', name: `two-inline|${JSON.stringify(b)}`, make: () => ({ files: [['m', `<wxs module="m">${b}</wxs><wxs module="n">${b}</wxs>`], ['n', `<wxs module="m">${b}</wxs>`]], scripts: [['s', b], ['t', b]] }) })
   }
+  // the extra runtime script of a group (documented: valid statements ended by a semicolon), with and without scripts in the group
+  for (const extra of ['foo();', 'var a=1;', 'function f(){};', '/* c */;', 'foo();bar();', 'if(x){y()};', '"use strict";', 'foo(); // trailing\n;']) {
+    for (const withScripts of [0, 1, 2]) {
+      out.push({ group: 'runtime-extra', name: `extra|${JSON.stringify(extra)}|${withScripts}`, make: () => ({ files: [['m', withScripts === 2 ? '<wxs module="m">exports.f=1</wxs><a b="{{m.f}}"/>' : '<a b="{{x}}"/>']], scripts: withScripts === 1 ? [['s', 'exports.f=1']] : [], extra }) })
+    }
+  }
   const toks = thorough ? TOKENS : TOKENS_CORE
   const maxLen = thorough ? 3 : 3
   for (const s of strings(toks, maxLen)) out.push({ group: 'tokens', name: `tokens|${JSON.stringify(s)}`, make: () => ({ files: [['m', s]], scripts: [] }) })
@@ -364,7 +370,7 @@ function checkJob(cs, job, res, rep) {
   const maxLevel = Math.max(0, ...Object.values(res.diags || {}).flat().map((d) => d.level))
   let emitted = 0
   for (const name of Object.keys(res.outputs)) {
-    if (name === 'runtime') { if (runtimeChecked) continue; runtimeChecked = true }
+    if (name === 'runtime' && !job.extra) { if (runtimeChecked) continue; runtimeChecked = true } // (the prelude only varies with the extra runtime script)
     const o = res.outputs[name]
     if (o.ok === undefined) { rep.count('emit-declined:' + name.split(':')[0]); continue }
     emitted += 1
